@@ -222,6 +222,9 @@ func TestVerif_C47(t *testing.T) {
 		may := vf47MayDiscard(epoch, m.since, disabled, m.err)
 		discarded := !all
 		r.Distinct(fmt.Sprintf("%s|%d|%d|%v|%v|%v", route, epoch, m.since, disabled, m.err, discarded))
+		if (int(epoch)*31+int(m.since)*7)%53 == 0 {
+			r.Sample(map[string]any{"route": route, "epoch": epoch, "unpaid_since": m.since, "payments_disabled": disabled, "payment_check_error": fmt.Sprint(m.err), "discarded": discarded, "reference_may_discard": may})
+		}
 		if !all && !none {
 			r.Violation("epoch-handler|partial-discard", fmt.Sprintf("container %s partly unavailable after epoch %d: %s", c.id, epoch, detail), step)
 		}
